@@ -85,20 +85,6 @@ func rulesC02(cx *Ctx) []Obligation {
 	for _, o := range rulesC06(cx) {
 		obs = append(obs, o)
 	}
-	// stand-in for the honest-fit argument (W2 is not built): the generic reduction keeps a quotient width of at
-	// least 144 bits from a never-reassigned constant, and every width admits a single result (≤ 189)
-	for _, o := range rulesC07(cx) {
-		if strings.HasPrefix(o.Key, "C07/O7.2/") {
-			o.Key = "C02/honest-fit/" + strings.TrimPrefix(o.Key, "C07/O7.2/")
-			obs = append(obs, o)
-		}
-	}
-	for _, o := range rulesC05(cx) {
-		if strings.HasPrefix(o.Key, "C05/W1/") {
-			o.Key = "C02/no-wrap/" + strings.TrimPrefix(o.Key, "C05/W1/")
-			obs = append(obs, o)
-		}
-	}
 	// the 97-input inner circuit's public-input hash ends in a partial chunk: the sponge must keep the previous
 	// lanes there (plonky2's overwrite mode), otherwise that honest proof is rejected under every backend
 	for _, o := range ruleSpongeOverwrite(cx) {
